@@ -61,7 +61,7 @@ def resolveBody (env : Env) (fuel : Nat) (root : String) (s : Selection) (acc : 
         let x ← resolve env fuel f.sel root
         pure (.yield (acc.1 ++ x.1, setUnion acc.2 x.2))
       else do
-        modify fun st => { st with dropped := st.dropped ++ ["..." ++ n] }
+        modify fun st => { st with dropped := st.dropped ++ [(f.on, root)] }
         pure (.yield (acc.1, acc.2))
   | .inline on _ _ sub =>
     match on with
@@ -72,7 +72,7 @@ def resolveBody (env : Env) (fuel : Nat) (root : String) (s : Selection) (acc : 
         let x ← resolve env fuel sub rt
         pure (.yield (acc.1 ++ x.1, setUnion acc.2 x.2))
       | none => do
-        modify fun st => { st with dropped := st.dropped ++ ["... on " ++ cond] }
+        modify fun st => { st with dropped := st.dropped ++ [(cond, root)] }
         pure (.yield (acc.1, acc.2))
 
 /-- `resolve` is that loop followed by `self._fragments_used_as_mixins |= fragments` -/
